@@ -181,6 +181,8 @@ def run_somersault(sx, cfg, env):
         sx.assume(msg[0] == cfg["first"])
     if cfg.get("second_hi") is not None:
         sx.assume(msg[1] >> 4 == cfg["second_hi"])
+    if cfg.get("not_first"):
+        sx.assume(s_and(*[msg[0] != b for b in cfg["not_first"]]))
     try:
         if cfg["entry"] == "decode":
             res = layer.decode(msg)
@@ -201,6 +203,28 @@ def run_somersault(sx, cfg, env):
     sx.observe("outcome", [_summ(m) for m in res])
 
 
+def _own_layers():
+    from harness.c06 import C, V, MR, NRC, rq
+    return {
+        # two coding objects of ONE service accept the same bytes (overlapping NRC-CONST lists):
+        # whatever the layer makes of it, it is a result or the decode error
+        "ambiguous-negatives": {"services": [
+            {"name": "A", "request": rq(C("sid", 0x22), V("x")), "pos": [rq(C("sid", 0x62), V("y"))],
+             "neg": [rq(C("sid", 0x7F), MR("rsid"), NRC("nrc", [0x11, 0x31])),
+                     rq(C("sid", 0x7F), MR("rsid"), NRC("nrc", [0x31, 0x33]), V("extra"))]},
+            {"name": "B", "request": rq(C("sid", 0x23), V("x")),
+             "pos": [rq(C("sid", 0x63), V("y")), rq(C("sid", 0x63), V("y"), V("z"))]}]},
+    }
+
+
+def build_layers(cfg):
+    from harness import c06
+    from catalogue import build
+    import odxtools.isotp_state_machine  # noqa
+    spec = {**c06.LAYERS, **_own_layers()}[cfg["layer"]]
+    return {"layer": build.build_layer(spec), "spec": spec}
+
+
 HARNESSES = {
     "atomdec": {"build": cc.build_atom, "run": run_atomdec, "width": 80,
                 "must_cover": ["returned", "decode-error"],
@@ -213,6 +237,10 @@ HARNESSES = {
     "snoop": {"build": build_snoop, "run": run_snoop, "width": 80, "must_cover": ["handled"],
               "limits": {"quick": explore.Limits(max_paths=20000, wall_s=600),
                          "thorough": explore.Limits(max_paths=200000, wall_s=3000)}},
+    "layers": {"build": build_layers, "run": run_somersault, "width": 80,
+               "must_cover": ["returned", "decode-error"],
+               "limits": {"quick": explore.Limits(max_paths=20000, wall_s=300),
+                          "thorough": explore.Limits(max_paths=200000, wall_s=1500)}},
     "somersault": {"build": build_somersault, "run": run_somersault, "width": 80,
                    "must_cover": ["returned", "decode-error"],
                    "limits": {"quick": explore.Limits(max_paths=20000, wall_s=600),
@@ -225,6 +253,18 @@ HARNESSES["compdec"]["build"] = _cp.build_composite
 
 def configs(tier, seed):
     out = []
+    from harness import c06 as _c06
+    for name, spec in {**_c06.LAYERS, **_own_layers()}.items():
+        firsts = sorted(_c06.first_bytes(spec))
+        for n in range(0, (4 if tier == "quick" else 6)):
+            base = {"harness": "layers", "layer": name, "mlen": n, "entry": "decode",
+                    "build": {"layer": name}}
+            if n >= 2:
+                for fb in firsts:
+                    out.append(dict(base, id=f"layers/{name}/len{n}/b{fb:02x}", first=fb))
+                out.append(dict(base, id=f"layers/{name}/len{n}/other", not_first=firsts))
+            else:
+                out.append(dict(base, id=f"layers/{name}/len{n}"))
     for what, table in (("request", _cp.COMPOSITES),
                         ("response", {**_cp.RESPONSES, **_cp.DECODE_ONLY_RESPONSES})):
         for name in table:
